@@ -143,6 +143,61 @@ fn c16_string(c: &mut Ctx, s: &str, deep: bool) {
     }
 }
 
+/// Strings built from two filler runs of every length 0..=maxlen around fixed markers: the shapes a
+/// bounded enumeration over short strings cannot reach (block-wise scanners, offsets kept in narrow
+/// integers, state carried across long levels). `pats` items are (head, mid, tail): the string is
+/// head ++ F^n1 ++ mid ++ G^n2 ++ tail for fillers F, G of 1, 2 or 3 bytes.
+fn segment_sweep(pats: &[(&str, &str, &str)], maxlen: usize, w: usize, n: usize, f: &mut dyn FnMut(&str)) {
+    let fillers: [(&str, &str); 4] = [("a", "b"), ("é", "b"), ("a", "你"), ("你", "é")];
+    let mut k = 0usize;
+    let mut s = String::new();
+    for (head, mid, tail) in pats {
+        for (fa, fb) in fillers.iter() {
+            for n1 in 0..=maxlen {
+                k += 1;
+                if k % n != w {
+                    continue;
+                }
+                // n1 and n2 count characters, so byte offsets of the markers vary with the fillers
+                s.clear();
+                s.push_str(head);
+                for _ in 0..n1 {
+                    s.push_str(fa);
+                }
+                s.push_str(mid);
+                let base = s.len();
+                for n2 in 0..=maxlen {
+                    s.truncate(base);
+                    for _ in 0..n2 {
+                        s.push_str(fb);
+                    }
+                    s.push_str(tail);
+                    f(&s);
+                }
+            }
+        }
+    }
+}
+
+const SWEEP_FILTER: [(&str, &str, &str); 14] = [
+    ("", "/", "#"),
+    ("", "/", "+"),
+    ("", "/", "+/x"),
+    ("", "#/", ""),
+    ("", "+/", ""),
+    ("", "/#/", ""),
+    ("", "/", "/#"),
+    ("", "/+/", ""),
+    ("", "\0", ""),
+    ("$share/", "/", ""),
+    ("$share/", "/", "#"),
+    ("$share/", "/", "/#"),
+    ("$share/", "+/", ""),
+    ("x/", "/+", ""),
+];
+
+const SWEEP_NAME: [(&str, &str, &str); 6] = [("", "/", ""), ("", "+", ""), ("", "#", ""), ("", "\0", ""), ("$SYS/", "/", "#"), ("", "/", "+")];
+
 /// The decision for `s` carried as the only filter of SUBSCRIBE / UNSUBSCRIBE packets.
 fn c16_packet_route(c: &mut Ctx, s: &str) {
     if s.len() > 65_535 {
@@ -298,6 +353,29 @@ pub fn c16(ctx: &mut Ctx, layer: &str) {
                 Ok(local) => c.merge(local),
                 Err(pm) => c.violation(format!("C16:panic:{}", panic_sig(&pm)), format!("filter validation / SUBSCRIBE decoding panicked on a long multi-byte string: {}", pm), Case::new("string", 0, &[])),
             }
+        }
+        {
+            // two filler runs of every length around the wildcard / separator / share markers
+            let maxlen = if layer_is_small { 9 } else if c.thorough { 400 } else { 150 };
+            let mut cnt2 = 0u64;
+            let res = guard(|| {
+                let mut local = c.child();
+                segment_sweep(&SWEEP_FILTER, maxlen, w, n, &mut |s| {
+                    cnt2 += 1;
+                    c16_string(&mut local, s, cnt2 % 97 == 0);
+                    if cnt2 % 4099 == 0 {
+                        c16_packet_route(&mut local, s);
+                    }
+                });
+                local
+            });
+            match res {
+                Ok(local) => c.merge(local),
+                Err(pm) => c.violation(format!("C16:panic:{}", panic_sig(&pm)), format!("filter validation panicked in the segment-length sweep: {}", pm), Case::new("string", 0, &[])),
+            }
+            c.evals(cnt2);
+            c.distinct_direct += cnt2;
+            c.countn("segment-sweep", cnt2);
         }
         if w == 0 {
             for s in ["+", "#", "+/+", "+x", "a/+x", "$share/g/+x", "x+", "a/#", "a/#/", "$share/g/a", "$share/g", "sport/+/player1", "/", "//", "$share/é𝄞/+/#"] {
@@ -688,6 +766,27 @@ pub fn c18(ctx: &mut Ctx, layer: &str) {
         local.evals(cnt);
         local.distinct_direct += cnt;
         c.merge(local);
+        {
+            let maxlen = if matches!(layer, "miri" | "vg") { 9 } else if c.thorough { 400 } else { 150 };
+            let mut cnt2 = 0u64;
+            let mut local = c.child();
+            let res = guard(|| {
+                segment_sweep(&SWEEP_NAME, maxlen, w, n, &mut |s| {
+                    cnt2 += 1;
+                    c18_string(&mut local, s, cnt2 % 97 == 0);
+                    if cnt2 % 4099 == 0 {
+                        c18_packet_routes(&mut local, s);
+                    }
+                });
+            });
+            if let Err(pm) = res {
+                c.violation(format!("C18:panic:{}", panic_sig(&pm)), format!("topic name validation panicked in the segment-length sweep: {}", pm), Case::new("string", 0, &[]));
+            }
+            local.evals(cnt2);
+            local.distinct_direct += cnt2;
+            local.countn("segment-sweep", cnt2);
+            c.merge(local);
+        }
         if w == 0 {
             for len in [65_534usize, 65_535, 65_536, 65_537] {
                 for tail in ["", "+", "#", "\0", "/a", "é"] {
